@@ -128,8 +128,12 @@ def _check_generated(tag: str, text: str, names):
         m = re.search(r"'" + re.escape(n) + r"' depends on axioms: \[([^\]]*)\]", out)
         none = re.search(r"'" + re.escape(n) + r"' does not depend on any axioms", out)
         ax = [a.strip() for a in m.group(1).split(",")] if m else ([] if none else None)
-        ok = p.returncode == 0 and ax is not None and set(ax) <= core.ALLOWED_AXIOMS
+        # per obligation: a theorem whose `decide` fails is added with `sorryAx` (or not at all), the others still check
+        ok = ax is not None and set(ax) <= core.ALLOWED_AXIOMS
         res.append({"name": n, "ok": ok, "axioms": ax, "detail": (p.stdout or "")[-2000:] + (p.stderr or "")[-1000:]})
+    if p.returncode != 0 and all(r["ok"] for r in res):
+        for r in res:       # the file failed for a reason that is none of the obligations: nothing is established
+            r["ok"] = False
     return res
 
 
